@@ -89,6 +89,11 @@ def pick_program(ctx, i, rng):
         free = [p for p, t in allf.items() if not re.search(r"\.(f|for|ftn|f77)$", p, re.I) and not p.startswith("fixed") and "\t" not in t]
         smp = ctx.cache["smp"] = (allf, sorted(free))
     allf, free = smp
+    if i % 16 == 7:
+        # hand-written subjects with forms neither the samples nor the model contain (operator/assignment interfaces and bindings, shared DO label)
+        from vf.extra_samples import EXTRA
+        target = sorted(EXTRA)[(i // 16) % len(EXTRA)]
+        return {target: EXTRA[target]}, target, False
     if i % 3 != 2:
         target = free[(i // 3 * 2 + i % 3) % len(free)]
         ext = os.path.splitext(target)[1]
